@@ -12,7 +12,8 @@ RULE = ("random trees (depth<=3) with prefer/avoid/both xattrs (trusted.* and us
         "and tie-heavy metric values, all five kill plugins, recursive on/off, scripted per-cgroup outcomes (success / every pid ESRCH), "
         "2-3 ticks; plus an exhaustive sweep of every (preference incl. both marks x oom.group x populated x outcome) assignment on all tree shapes with "
         "<=3 cgroups below the target. The observed sequence of attempted victims (uuid xattr markers at setxattr(2)) must be one of the "
-        "sequences the documented walk allows (ties in (preference, metric) admit any order). "
+        "sequences the documented walk allows (ties in (preference, metric) admit any order); in a fifth of the cases a prekill hook stays pending for "
+        "0-3 ticks per victim, so the walk is suspended and resumed from its saved fallback stack, and the attempts of the whole chain are compared. "
         "non-trivial = >=2 attempts in one invocation (fallback) or a descent below the first level; distinct by scenario hash")
 ASSUMPTIONS = ["metric reference from oracles/kill.py (exact rationals); ties within 1e-6 relative are don't-care",
                "kill(2) interposed; a cgroup's outcome is scripted through per-pid results"]
@@ -47,6 +48,84 @@ def mk_case(rng, cid, plugin, tie=False, depth=None, fan=None):
     if rng.random() < 0.15:
         scn["dtype_unknown"] = True
     return core.Case(cid, [scn], {"plugin": plugin, "patterns": pats, "args": args})
+
+
+def mk_hook_case(rng, cid):
+    """a prekill hook that stays pending over one or more ticks: the walk is suspended with its fallback stack saved and must
+    continue in the same order when it resumes (static world and static metrics, so the reference walk is the fire-tick one)"""
+    plugin = rng.choice(["kill_by_pressure", "kill_by_swap_usage"])
+    cgs, info, pids = KG.gen_tree(rng, depth=rng.choice([1, 2, 2]), fan=rng.choice([3, 4]), pidcounts=(1, 1, 2),
+                                  pref_p=0.35, oomgroup_p=0.15, unpop_p=0.1)
+    pats = rng.choice([["wl/*"], ["wl/*"], ["wl"], KG.patterns_for(rng, info)])
+    args = KG.kill_args(rng, plugin, pats, recursive=rng.random() < 0.6)
+    for k in ("always_continue", "threshold", "biased_swap_kill"):
+        args.pop(k, None)
+    kill = {"default": "ok", "pids": {}}
+    for rel in info:
+        if rng.random() < 0.7:
+            for p in info[rel]["pids"]:
+                kill["pids"][str(p)] = "ESRCH"
+    hooks = [{"name": "v_hook", "args": {"id": "h0", "cgroup": rng.choice(["/", "wl", "wl/*"])}}]
+    hspec = {"h0": [{"polls": rng.choice([0, 1, 1, 2, 3])} for _ in range(12)]}
+    ticks = [{"step_ns": 10**9, "ops": []} for _ in range(rng.randint(8, 14))]
+    scn = KG.base_scn(cid, cgs, KG.kill_config(plugin, args, {"prekill_hook_timeout": "1000"}, hooks=hooks), ticks=ticks, kill=kill, hooks=hspec)
+    return core.Case(cid, [scn], {"plugin": plugin, "patterns": pats, "args": args, "hook": True})
+
+
+def judge_hook(case, res, scn, v):
+    args, plugin = case.meta["args"], case.meta["plugin"]
+    pats = args["cgroup"].split(",")
+    recursive = K.parse_bool(args.get("recursive"))
+    params = CG.Params(scn)
+    hist = CG.History(params)
+    invs = KT.parse(res.events)
+    w = model.World(scn)
+    kill_res = scn.get("kill", {})
+    chains = []  # [start tick, view, roots, temporal, [victims], [killed pids]]
+    for ti, t in enumerate(scn["ticks"]):
+        if ti >= len(invs):
+            break
+        inv = invs[ti]
+        w.apply(t.get("ops"))
+        view = CG.View(w.snapshot(), params)
+        roots = [r for r in P.resolve_many(pats, view.w.dirs())]
+        temporal = hist.step(view, queried_set(view, roots, recursive), ti)
+        if inv.pre is not None:
+            chains.append([ti, view, roots, temporal, [], 0])
+        if not chains:
+            continue
+        chains[-1][4] += [a.victim for a in inv.attempts]
+        chains[-1][5] += len(inv.hooks)
+        killed = [k["pid"] for a in inv.attempts for k in a.ok_kills]
+        if killed:
+            model.apply_kills(w, killed)
+    resumed = 0
+    for ci, (ti, view, roots, temporal, observed, nhook) in enumerate(chains):
+        def outcome(rel, view=view):
+            for s_ in view.w.subtree(rel):
+                for p in view.w.pids(s_):
+                    if p > 0 and kill_res.get("pids", {}).get(str(p), kill_res.get("default", "ok")) == "ok":
+                        return True
+            return False
+        walk = K.Walk(view, temporal, plugin, args, outcome)
+        alts = walk.sequences(roots)
+        v.count("invocations")
+        if walk.overflow or walk.ambiguous:
+            v.count("dontcare_invocations")
+            continue
+        allowed = set(tuple(a[0]) for a in alts)
+        last = ci == len(chains) - 1
+        ok = tuple(observed) in allowed or (last and any(a[:len(observed)] == tuple(observed) for a in allowed))
+        if not ok:
+            v.bad("victim-order", "across-prekill-hook", "chain started at tick %d, plugin %s args %s: attempted %s over the suspended chain; allowed "
+                  "sequences (first 3 of %d): %s" % (ti, plugin, args, observed, len(allowed), sorted(allowed)[:3]))
+            return v
+        if len(observed) >= 2 and nhook:
+            resumed += 1
+    v.count("fallback_after_hook_resume", resumed)
+    v.nontrivial = resumed > 0
+    v.sig = core.scn_hash(scn)
+    return v
 
 
 def exhaustive_cases(seed, limit=None):
@@ -89,6 +168,8 @@ def cases(seed, tier):
     for i in range(n):
         plugin = KG.PLUGINS[i % 5]
         yield mk_case(rng, "C03-%d-%d" % (seed, i), plugin, tie=(i % 7 == 0))
+    for i in range(n // 5):
+        yield mk_hook_case(rng, "C03h-%d-%d" % (seed, i))
     yield from exhaustive_cases(seed, limit=1500 if tier == "quick" else None)
 
 
@@ -112,6 +193,8 @@ def judge(case, results):
     if cr:
         v.bad("crash:" + cr[0], cr[1], cr[2])
         return v
+    if case.meta.get("hook"):
+        return judge_hook(case, res, scn, v)
     args, plugin = case.meta["args"], case.meta["plugin"]
     pats = args["cgroup"].split(",")
     recursive = K.parse_bool(args.get("recursive"))
